@@ -10,11 +10,13 @@ package main
 //	                 additional stage  tc:<spanSec>  = `| timechart span=<n>s count`
 //	seg            : number of the segment (0 = events before the first `ro`, …)
 //	file           : csg:<column> | cmi:<column> | bsu | sst | sfm | segmeta | pqmr:<i> | crup:<i>     (i-th file of that kind, by name)
-//	mutation       : none | cut@<pos> | set@<pos>=<byte> | xor@<pos>=<mask>
+//	mutation       : none | del (the file is removed) | cut@<pos> | set@<pos>=<byte> | xor@<pos>=<mask>
 //	pos            : a<n> absolute | e<n> = length-n | m<permille of the length> |
 //	                 c<k>h<d> byte d of the 12-byte header of checksum chunk k | c<k>d<d> byte d of its data |
 //	                 c<k>t<d> = end of chunk k minus d | c<k>p<permille of its data>
 //	                 (segmeta: the file is segmeta.json and positions are relative to the line of segment <seg>)
+//	                 s:<col>:a<n> | s:<col>:e<n>  (.sst only) byte n of / n bytes before the end of the statistics record of
+//	                 column <col> (the columns are written in map order, so absolute positions hit a random column)
 //
 // Exec: child 1 (fresh engine process on a new data directory) ingests the history, runs the queries (the CLEAN answers =
 // Out, compared with the Lean specification's answer for the same line by lib/e2ecmp.py) and exits; the parent applies
@@ -544,8 +546,8 @@ func sfParseMut(s string) (m sfMut, ok bool) {
 	if m.kind == "csg" && m.arg == "timestamp" {
 		m.fileCls = "csg-ts"
 	}
-	if p[2] == "none" {
-		m.op = "none"
+	if p[2] == "none" || p[2] == "del" {
+		m.op = p[2]
 		return m, true
 	}
 	at := strings.SplitN(p[2], "@", 2)
@@ -588,8 +590,33 @@ func sfPosOK(p string) bool {
 			return false
 		}
 		return digitsOnly(p[1:1+i]) && digitsOnly(p[2+i:]) && len(p) < 12
+	case 's':
+		q := strings.Split(p, ":")
+		return len(q) == 3 && q[0] == "s" && q[1] != "" && len(q[1]) < 20 && len(q[2]) >= 2 && len(q[2]) < 8 && (q[2][0] == 'a' || q[2][0] == 'e') && digitsOnly(q[2][1:])
 	}
 	return false
+}
+
+// the statistics record of one column inside a .sst file: version byte, then per column <len(2)> <name> <len(4)> <record>
+func sfSstEntry(b []byte, col string) (lo, hi int) {
+	off := 1
+	for off+2 <= len(b) {
+		nl := int(binary.LittleEndian.Uint16(b[off:]))
+		if off+2+nl+4 > len(b) {
+			return -1, -1
+		}
+		name := string(b[off+2 : off+2+nl])
+		sl := int(binary.LittleEndian.Uint32(b[off+2+nl:]))
+		start := off + 2 + nl + 4
+		if start+sl > len(b) {
+			return -1, -1
+		}
+		if name == col {
+			return start, start + sl
+		}
+		off = start + sl
+	}
+	return -1, -1
 }
 
 type sfChunk struct{ start, dataLen int }
@@ -610,6 +637,24 @@ func sfChunks(b []byte) []sfChunk {
 
 // resolves a symbolic position inside b[lo:hi); -1 = not applicable to this file
 func sfResolve(pos string, b []byte, lo, hi int) int {
+	if pos[0] == 's' {
+		q := strings.Split(pos, ":")
+		elo, ehi := sfSstEntry(b, q[1])
+		d, _ := strconv.Atoi(q[2][1:])
+		if elo < 0 {
+			return -1
+		}
+		if q[2][0] == 'a' {
+			if elo+d >= ehi {
+				return -1
+			}
+			return elo + d
+		}
+		if ehi-d < elo {
+			return -1
+		}
+		return ehi - d
+	}
 	n, _ := strconv.Atoi(pos[1:])
 	switch pos[0] {
 	case 'a':
@@ -696,6 +741,17 @@ func sfApply(dir string, m sfMut, nseg int) (changed bool, damaged map[int]bool,
 	b, err := os.ReadFile(path)
 	if path == "" || err != nil {
 		return false, damaged, "no-such-file"
+	}
+	if m.op == "del" {
+		// the whole file is gone (segmeta.json: not exercised, the generator does not ask for it)
+		if m.kind == "segmeta" {
+			return false, damaged, "not-applicable"
+		}
+		if err := os.Remove(path); err != nil {
+			panic(err)
+		}
+		damaged[m.seg] = true
+		return true, damaged, "del"
 	}
 	lo, hi := 0, len(b)
 	if m.kind == "segmeta" {
@@ -1099,6 +1155,15 @@ func execSegfault(line string) Result {
 	res := Result{Out: strings.Join(segs, " | ")}
 
 	changed, damaged, note := sfApply(dir, m, ds.nseg)
+	if m.kind == "sst" {
+		// a .sst cut down to its version byte, or whose version byte is changed, is damaged in a way the reader can see
+		// without a checksum (the writer never writes a file without column statistics): a class of its own (repaired by
+		// patch c18-6; the other damage of the file stays in the recorded class undetected-damage/sst)
+		var mp, mh int
+		if k, _ := fmt.Sscanf(note, m.op+"@%d/%d", &mp, &mh); k == 2 && ((m.op == "cut" && mp == 1) || (m.op != "cut" && mp == 0)) {
+			m.fileCls = "sst-header"
+		}
+	}
 	res.Tags = append(res.Tags, "file:"+m.fileCls, "mut:"+m.op)
 	if !changed {
 		res.Tags = append(res.Tags, "unchanged:"+note)
@@ -1252,6 +1317,13 @@ func genSegfault(r *rand.Rand, n int, tier string) []string {
 	for _, f := range []string{"bsu", "sst", "sfm", "segmeta"} {
 		add(f, "cut@a0", "cut@a1", "cut@a7", "cut@m250", "cut@m500", "cut@m900", "cut@e1", "cut@e2", "xor@a0=1", "xor@a0=128", "xor@a1=255", "xor@a2=4", "xor@a6=1", "xor@a10=32", "xor@m200=8", "xor@m400=1", "xor@m600=64", "xor@m800=2", "xor@e1=1", "xor@e2=16", "set@m500=0", "set@m100=255")
 	}
+	add("sst", "xor@s:n:e16=1", "xor@s:n:e9=64", "xor@s:n:a2=1", "cut@s:n:a0", "xor@s:s:a2=3")
+	// the whole file gone (not for the column files and the metadata: a missing column file is a column the segment does
+	// not have, outside the statement, which speaks of truncated and altered files)
+	add("bsu", "del")
+	add("sst", "del")
+	add("cmi:s", "del")
+	add("cmi:n", "del")
 	add("pqmr:0", "cut@a0", "cut@m500", "xor@a2=255", "xor@a9=1", "xor@m900=16")
 	add("crup:0", "cut@a0", "cut@m500", "xor@a0=255", "xor@a9=1", "xor@m900=16")
 	var out []string
@@ -1294,7 +1366,8 @@ func genSegfault(r *rand.Rand, n int, tier string) []string {
 	// quick: a fixed core (one case per file kind and mutation family) first, then random draws
 	core := []string{"csg:s/xor@c1p500=4", "csg:u/xor@c1p500=4", "csg:timestamp/cut@e1", "csg:timestamp/xor@c1p500=4", "csg:n/cut@c1t1", "csg:k/xor@c1h5=16",
 		"csg:s/cut@c1d1", "csg:_vid/xor@c1p500=4", "cmi:s/xor@m300=16", "cmi:n/cut@m500", "bsu/xor@m400=1", "bsu/cut@m500", "sst/xor@m400=1", "sst/cut@e1",
-		"sfm/xor@m400=1", "sfm/cut@m500", "segmeta/xor@m400=1", "segmeta/cut@m500", "pqmr:0/xor@a9=1", "crup:0/xor@a9=1", "csg:s/none"}
+		"sfm/xor@m400=1", "sfm/cut@m500", "segmeta/xor@m400=1", "segmeta/cut@m500", "pqmr:0/xor@a9=1", "crup:0/xor@a9=1", "csg:s/none",
+		"sst/cut@a1", "sst/xor@a0=255", "bsu/del", "sst/del", "sst/xor@s:n:e16=1"}
 	for i, c := range core {
 		if len(out) < n {
 			out = append(out, line(variants[i%2], i%2, c))
